@@ -24,10 +24,12 @@ from . import sx
 from .sx import Sym
 
 RULE = ('programs of 2-3 threads x 1-3 operations over one registry (inc / gauge inc,set / summary+histogram observe / labels / '
-        'labels().inc / remove / clear / register / unregister / collect, optionally with a re-entrant collector that registers, '
-        'unregisters and looks up from inside collect()); schedules: EVERY schedule with <= 2 (quick) / <= 3 (thorough) '
+        'labels().inc on TWO labelled parents (new series of one metric type created concurrently) / remove / clear / register / '
+        'unregister / collect, optionally with collectors that act on the registry from inside collect(): one registers, '
+        'unregisters and looks up; one registers another collector and leaves it registered; one unregisters itself); schedules: EVERY schedule with <= 2 (quick) / <= 3 (thorough) '
         'pre-emptions placed at visible events (TracedLock acquire/release, read/write of a value cell, read/write of '
-        '_metrics/_collector_to_names/_names_to_collectors/_target_info, MmapedDict read_value/write_value, callout) for the '
+        '_metrics/_collector_to_names/_names_to_collectors/_target_info, MmapedDict read_value/write_value and every access to '
+        'its _used/_m/_positions/_capacity (so inside _init_value between the entry write and the _used update), callout) for the '
         'fixed program list SYSTEMATIC (lowest runnable thread first at blocking points), plus seeded random programs x '
         'seeded random schedules, half of them with pre-emption at ARBITRARY bytecode boundaries inside prometheus_client '
         '(sys.settrace + f_trace_opcodes); in-memory back-end in process, file-backed back-end in a child interpreter; '
@@ -393,6 +395,36 @@ class PlainAttr:
         obj.__dict__[self.name] = v
 
 
+def _file_point():
+    """An access to the mmap file of the multiprocess store: a pre-emption point, logged with the locks held (the model's
+    cell stands for the cached value and its file slot, so every file access must sit inside the store lock's section)."""
+    run = RUN
+    tid = run.me() if run is not None else None
+    if tid is not None:
+        run.point(tid, True)
+        run.log(tid, 'file', None)
+
+
+class FileAttr:
+    """Data descriptor for the bookkeeping attributes of MmapedDict: plain storage, but a pre-emption point."""
+
+    def __init__(self, name):
+        self.name = name
+
+    def __get__(self, obj, cls=None):
+        if obj is None:
+            return self
+        _file_point()
+        try:
+            return obj.__dict__[self.name]
+        except KeyError:
+            raise AttributeError(self.name)
+
+    def __set__(self, obj, v):
+        _file_point()
+        obj.__dict__[self.name] = v
+
+
 _PATCHED = {}
 
 
@@ -416,12 +448,13 @@ def patch():
         orig = getattr(mmap_dict.MmapedDict, meth)
 
         def wrapped(self, *a, _orig=orig, **kw):
-            run = RUN
-            tid = run.me() if run is not None else None
-            if tid is not None:
-                run.point(tid, True)
+            _file_point()
             return _orig(self, *a, **kw)
         setattr(mmap_dict.MmapedDict, meth, wrapped)
+    # ... and so is every access to the bookkeeping of the mmap file (used bytes, positions, the mapping itself):
+    # appending an entry (_init_value) is a slice write followed by the update of _used and _positions
+    for attr in ('_used', '_m', '_positions', '_capacity'):
+        setattr(mmap_dict.MmapedDict, attr, FileAttr(attr))
     _PATCHED.update(values=values, metrics=metrics, registry=registry)
     return _PATCHED
 
@@ -454,8 +487,11 @@ KEYS = ['a', 'b', 'c']
 # static cells: 1 c, 2 g, 3 s.count, 4 s.sum, 5 h.sum, 6.. h buckets (bounds 1, 2, +Inf)
 H_BOUNDS = [1.0, 2.0, float('inf')]
 # collector ids: 1 c, 2 g, 3 s, 4 h, 5 lc, 6 u0 (plain user collector), 7 u1 (re-entrant), 8 tmp (registered by u1)
-CID = {'c': 1, 'g': 2, 's': 3, 'h': 4, 'lc': 5, 'u0': 6, 'u1': 7, 'tmp': 8}
+CID = {'c': 1, 'g': 2, 's': 3, 'h': 4, 'lc': 5, 'u0': 6, 'u1': 7, 'tmp': 8, 'lc2': 9, 'u2': 10, 'tmp2': 11, 'u3': 12}
+# u2: a collector whose first collect() registers another collector (tmp2); u3: a one-shot collector that
+# unregisters itself from inside its collect()
 LC_TBL = 2
+LC2_TBL = 3
 
 
 class Wrap:
@@ -521,10 +557,18 @@ class World:
         self.s = metrics.Summary('s', 'h', registry=None)
         self.h = metrics.Histogram('h', 'h', buckets=[1, 2], registry=None)
         self.lc = metrics.Counter('lc', 'h', ['l'], registry=None)
+        self.lc2 = metrics.Counter('lc2', 'h', ['l'], registry=None)
         self.ulock = TracedLock()
+        self.ulock2 = TracedLock()
+        self.ulock3 = TracedLock()
+        self.lazy_done = False
+        self.gone = False
         self.coll = {}
-        for name in ('c', 'g', 's', 'h', 'lc'):
+        for name in ('c', 'g', 's', 'h', 'lc', 'lc2'):
             self.coll[CID[name]] = Wrap(self, CID[name], target=getattr(self, name))
+        self.coll[CID['tmp2']] = Wrap(self, CID['tmp2'])
+        self.coll[CID['u2']] = Wrap(self, CID['u2'], fn=self.lazy_register)
+        self.coll[CID['u3']] = Wrap(self, CID['u3'], fn=self.one_shot)
         self.coll[CID['u0']] = Wrap(self, CID['u0'])
         self.coll[CID['tmp']] = Wrap(self, CID['tmp'])
         self.coll[CID['u1']] = Wrap(self, CID['u1'], fn=self.reentrant)
@@ -542,6 +586,22 @@ class World:
             self.reg.unregister(tmp)
         return list(self.reg.restricted_registry(['n%d' % CID['tmp']]).collect())
 
+    def lazy_register(self):
+        """A collector whose first collect() registers another collector (lazy registration)."""
+        with self.ulock2:
+            if not self.lazy_done:
+                self.lazy_done = True
+                self.reg.register(self.coll[CID['tmp2']])
+        return []
+
+    def one_shot(self):
+        """A collector that unregisters itself from inside its collect()."""
+        with self.ulock3:
+            if not self.gone:
+                self.gone = True
+                self.reg.unregister(self.coll[CID['u3']])
+        return []
+
     def name_all(self, run):
         n = run.names
         n[id(self.reg)] = ('s', 0)                          # the registry object stands for its _target_info cell
@@ -551,6 +611,10 @@ class World:
         n[id(self.lc.__dict__['_metrics'])] = LC_TBL
         n[id(self.lc._lock)] = ('s', 10 + LC_TBL)
         n[id(self.ulock)] = ('s', 51)
+        n[id(self.ulock2)] = ('s', 52)
+        n[id(self.ulock3)] = ('s', 53)
+        n[id(self.lc2.__dict__['_metrics'])] = LC2_TBL
+        n[id(self.lc2._lock)] = ('s', 10 + LC2_TBL)
         if self.store is not None:
             n[id(self.store)] = ('s', 1)
         for num, v in self.cells.items():
@@ -558,17 +622,22 @@ class World:
             lk = v.__dict__.get('_lock')
             if isinstance(lk, TracedLock):
                 n[id(lk)] = ('s', 100 + num)
-        for lk in (self.reg._lock, self.lc._lock, self.ulock, self.store):
+        for lk in (self.reg._lock, self.lc._lock, self.lc2._lock, self.ulock, self.ulock2, self.ulock3, self.store):
             if lk is not None:
                 lk.label = str(n[id(lk)])
 
 
 def _num(v):
+    """Cell values are integers in every generated program; anything else (only possible when the store is corrupted)
+    is kept as it is and fails the comparisons."""
     if v is None:
         return 0
-    f = float(v)
+    try:
+        f = float(v)
+    except Exception:
+        return repr(v)
     if f != f or f in (float('inf'), float('-inf')) or f != int(f):
-        raise ValueError('non-integral value in a cell: %r' % (v,))
+        return repr(f)
     return int(f)
 
 
@@ -584,14 +653,14 @@ def do_op(world, run, tid, op, results):
         world.s.observe(op[1])
     elif k == 'obs_h':
         world.h.observe(op[1])
-    elif k in ('labels', 'linc'):
-        ch = world.lc.labels(KEYS[op[1]])
+    elif k in ('labels', 'linc', 'labels2', 'linc2'):
+        ch = (world.lc2 if k.endswith('2') else world.lc).labels(KEYS[op[1]])
         run.constructing[tid] = None
         vid = run.names.get(id(ch.__dict__.get('_value')))
         idx = vid[1] if vid else -1
         run.log(tid, 'ret', None, idx)
-        results.append(['labels', op[1], idx])
-        if k == 'linc':
+        results.append(['labels2' if k.endswith('2') else 'labels', op[1], idx])
+        if k in ('linc', 'linc2'):
             ch.inc(op[2])
     elif k == 'remove':
         world.lc.remove(KEYS[op[1]])
@@ -741,6 +810,8 @@ def _run_schedule(case, mp_dir):
             ev.append(['ret', tid, extra, locks])
         elif kind == 'exc':
             ev.append(['exc', tid, extra, locks])
+        elif kind == 'file':
+            ev.append(['file', tid, locks])
     # ---- final state, read without events ----
     final = {}
     for num, v in world.cells.items():
@@ -754,6 +825,7 @@ def _run_schedule(case, mp_dir):
     tables['0'] = sorted([_key(0, k), _key(0, k)] for k in dict.keys(world.reg.__dict__['_collector_to_names']))
     tables['1'] = sorted([_key(1, k), _tval(1, v, names)] for k, v in dict.items(world.reg.__dict__['_names_to_collectors']))
     tables['2'] = sorted([_key(2, k), _tval(2, v, names)] for k, v in dict.items(world.lc.__dict__['_metrics']))
+    tables['3'] = sorted([_key(3, k), _tval(3, v, names)] for k, v in dict.items(world.lc2.__dict__['_metrics']))
     # the final collect of the property (after all threads joined), sequentially
     final_collect = None
     final_exc = None
@@ -795,11 +867,17 @@ def _tval(tb, v, names):
 def read_mp_files(mp_dir):
     from prometheus_client.mmap_dict import MmapedDict
     out = {}
-    for fn in sorted(os.listdir(mp_dir)):
-        if fn.endswith('.db'):
-            for key, value, _ts, _pos in MmapedDict.read_all_values_from_file(os.path.join(mp_dir, fn)):
-                k = json.loads(key)
-                out[k[1] + '|' + ','.join('%s=%s' % kv for kv in sorted(k[2].items()))] = value
+    try:
+        for fn in sorted(os.listdir(mp_dir)):
+            if fn.endswith('.db'):
+                for key, value, _ts, _pos in MmapedDict.read_all_values_from_file(os.path.join(mp_dir, fn)):
+                    k = json.loads(key)
+                    nm = k[1] + '|' + ','.join('%s=%s' % kv for kv in sorted(k[2].items()))
+                    if nm in out:
+                        out['__dup__'] = nm
+                    out[nm] = value
+    except Exception as e:                 # a corrupted file: reported by the direct oracle
+        out['__error__'] = '%s: %s' % (type(e).__name__, str(e)[:120])
     return out
 
 
@@ -829,6 +907,10 @@ def model_ops(op):
         return [(Sym('labels'), LC_TBL, op[1], 1)]
     if k == 'linc':
         return [(Sym('linc'), LC_TBL, op[1], 1, 0, int(op[2]))]
+    if k == 'labels2':
+        return [(Sym('labels'), LC2_TBL, op[1], 1)]
+    if k == 'linc2':
+        return [(Sym('linc'), LC2_TBL, op[1], 1, 0, int(op[2]))]
     if k == 'remove':
         return [(Sym('remove'), LC_TBL, op[1])]
     if k == 'clear':
@@ -853,6 +935,10 @@ def model_bodies(flags):
         (3, [get(_x(3), False), get(_x(4), False)]),
         (4, [get(_x(6), True), get(_x(7), True), get(_x(8), True), get(_x(5), False)]),
         (5, [(Sym('multi'), LC_TBL, 101)]),
+        (9, [(Sym('multi'), LC2_TBL, 101)]),
+        (10, [(Sym('uacq'), 2), (Sym('register'), 11), (Sym('urel'), 2)]),
+        (11, []),
+        (12, [(Sym('uacq'), 3), (Sym('unregister'), 12), (Sym('urel'), 3)]),
         (101, [get((Sym('d'), 3, 0), True)]),
         (6, []), (8, []),
         (7, [(Sym('uacq'), 1), (Sym('register'), 8), (Sym('unregister'), 8), (Sym('urel'), 1), (Sym('lookup'), 8)]),
@@ -976,14 +1062,14 @@ def model_replay(m, case, obs):
     locs = [_x(i) for i in range(1, 9)] + [(Sym('c'), c, 0) for c in range(nch)]
     pre = case.get('pre_reg', [1, 2, 3, 4, 5])
     itabs = [(0, [(c, c) for c in pre]), (1, [(c, c) for c in pre])]
-    r = m.call('c02_replay', be == 'mp', threads, model_bodies(flags), tids, locs, [0, 1, 2], itabs)
+    r = m.call('c02_replay', be == 'mp', threads, model_bodies(flags), tids, locs, [0, 1, 2, 3], itabs)
     mevs = norm_model_events(r[0])
     final = {}
     for i in range(1, 9):
         final['s%d' % i] = int(r[2][i - 1])
     for c in range(nch):
         final['c%d.0' % c] = int(r[2][8 + c])
-    tables = {str(t): sorted([int(k), int(v)] for k, v in r[3][t]) for t in range(3)}
+    tables = {str(t): sorted([int(k), int(v)] for k, v in r[3][t]) for t in range(4)}
     return dict(events=mevs, remaining=[int(x) for x in r[1]], final=final, tables=tables,
                 wf=[sx.d_bool(b) for b in r[4]], stuck=[[int(a), int(b)] for a, b in r[5]])
 
@@ -997,6 +1083,10 @@ def compare(case, obs, mobs):
     for i, e in enumerate(ievs):
         if i >= len(mevs) or mevs[i] != e:
             return 'event %d differs: implementation %r, model %r' % (i, e, mevs[i] if i < len(mevs) else None)
+    for e in obs['events']:
+        if e[0] == 'file' and "('s', 1)" not in e[2]:
+            return ('thread %d accessed the mmap file of the multiprocess store outside the store lock (locks held: %r); '
+                    'in the model every cell access of the file-backed store is inside that critical section' % (e[1], e[2]))
     if mobs['stuck']:
         return 'model could not follow the schedule at %r' % (mobs['stuck'][:3],)
     if obs['aborted']:
@@ -1031,6 +1121,12 @@ def direct(case, obs):
         return 'final collect raised %s' % obs['final_exc']
     if obs['still_held']:
         return 'locks still held after all threads finished: %r' % (obs['still_held'],)
+    for e in obs['events']:
+        if e[0] in ('ld', 'st') and not isinstance(e[3], int):
+            return 'cell %r holds %s, which no sequence of the (integer) updates issued can produce' % (tuple(e[2]), e[3])
+    for k, v in obs['final'].items():
+        if not isinstance(v, int):
+            return 'cell %s ends with %s, which no sequence of the (integer) updates issued can produce' % (k, v)
     ops = [op for prog in case['threads'] for op in prog]
     fin = obs['final']
     want = {1: sum(o[1] for o in ops if o[0] == 'inc'),
@@ -1056,36 +1152,47 @@ def direct(case, obs):
         owner = {1: 1, 3: 3, 4: 3, 5: 4}[cell]
         if owner in regd and fc.get(nm) != want[cell]:
             return 'final collect reports %s = %r, the increments issued sum to %r' % (nm, fc.get(nm), want[cell])
-    # labelled children
+    # labelled children (two parents)
     removal = any(o[0] in ('remove', 'clear') for o in ops)
-    if not removal:
-        used = sorted(set(o[1] for o in ops if o[0] in ('labels', 'linc')))
+    for sfx, tb, cid, mname in (('', '2', 5, 'lc'), ('2', '3', 9, 'lc2')):
+        if removal and sfx == '':
+            continue
+        used = sorted(set(o[1] for o in ops if o[0] in ('labels' + sfx, 'linc' + sfx)))
         ids = {}
         for res in obs['results']:
             for r in res:
-                if r[0] == 'labels':
+                if r[0] == 'labels' + sfx:
                     ids.setdefault(r[1], set()).add(r[2])
-        for k, s in ids.items():
-            if len(s) != 1:
-                return 'labels(%r) returned %d different children' % (KEYS[k], len(s))
-        if len(obs['tables']['2']) != len(used):
-            return 'child table has %d entries for %d distinct label values' % (len(obs['tables']['2']), len(used))
+        for k, st in ids.items():
+            if len(st) != 1:
+                return '%s.labels(%r) returned %d different children' % (mname, KEYS[k], len(st))
+        if len(obs['tables'][tb]) != len(used):
+            return 'child table of %s has %d entries for %d distinct label values' % (mname, len(obs['tables'][tb]), len(used))
         for k in used:
-            w = sum(o[2] for o in ops if o[0] == 'linc' and o[1] == k)
-            if 5 in regd and fc.get('lc_total|l=%s' % KEYS[k]) != w:
-                return 'lost update: lc{l=%s} is %r, the increments issued sum to %r' % (KEYS[k], fc.get('lc_total|l=%s' % KEYS[k]), w)
-    # file-backed store: the file holds what the process holds
-    if obs.get('files') is not None and not removal:
-        for nm, v in obs['files'].items():
-            base = nm.split('|')[0]
-            key = {'c_total': 's1', 'g': 's2', 's_count': 's3', 's_sum': 's4', 'h_sum': 's5'}.get(base)
-            if key and fin[key] != v:
-                return 'file-backed store: file has %s = %r, the process holds %r' % (nm, v, fin[key])
-            if base == 'lc_total':
-                k = nm.split('l=')[1]
-                w = sum(o[2] for o in ops if o[0] == 'linc' and KEYS[o[1]] == k)
-                if v != w:
-                    return 'file-backed store: file has %s = %r, the increments issued sum to %r' % (nm, v, w)
+            w = sum(o[2] for o in ops if o[0] == 'linc' + sfx and o[1] == k)
+            nm = '%s_total|l=%s' % (mname, KEYS[k])
+            if cid in regd and fc.get(nm) != w:
+                return 'lost update: %s{l=%s} is %r, the increments issued sum to %r' % (mname, KEYS[k], fc.get(nm), w)
+    # file-backed store: the .db files, read back, hold every series exactly once with the value the process holds
+    # (= the sum of the increments issued)
+    if obs.get('files') is not None:
+        files = obs['files']
+        if files.get('__error__'):
+            return 'file-backed store: the .db files cannot be read back: %s' % files['__error__']
+        if files.get('__dup__'):
+            return 'file-backed store: series %r occurs more than once in the .db files' % (files['__dup__'],)
+        expect = {'c_total|': fin['s1'], 's_count|': fin['s3'], 's_sum|': fin['s4'], 'h_sum|': fin['s5'],
+                  'h_bucket|le=1.0': fin['s6'], 'h_bucket|le=2.0': fin['s7'], 'h_bucket|le=+Inf': fin['s8'], 'g|': fin['s2']}
+        for sfx, mname in (('', 'lc'), ('2', 'lc2')):
+            if removal and sfx == '':
+                continue
+            for k in sorted(set(o[1] for o in ops if o[0] in ('labels' + sfx, 'linc' + sfx))):
+                expect['%s_total|l=%s' % (mname, KEYS[k])] = sum(o[2] for o in ops if o[0] == 'linc' + sfx and o[1] == k)
+        for nm, w in sorted(expect.items()):
+            if nm not in files:
+                return 'file-backed store: series %s (value %r in the process) is missing from the .db files' % (nm, w)
+            if files[nm] != w:
+                return 'file-backed store: file has %s = %r, the process holds / the increments sum to %r' % (nm, files[nm], w)
     # every value a load reports was held; counters never decrease in the order the loads happened
     held = {}
     last = {}
@@ -1211,6 +1318,9 @@ SYSTEMATIC = [
     ([1], [[['inc', 1]], [['inc', 2]]]),
     ([5], [[['linc', 0, 1]], [['linc', 0, 2]]]),
     ([1], [[['inc', 1]], [['inc', 2]], [['inc', 4]]]),
+    ([5, 9], [[['linc', 0, 1]], [['linc2', 0, 2]]]),
+    ([1, 10], [[['collect']], [['inc', 1]]]),
+    ([12, 1], [[['collect']], [['inc', 1]]]),
     ([5], [[['linc', 0, 1]], [['collect']]]),
     ([1, 6], [[['unregister', 6]], [['collect']]]),
     ([1], [[['register', 6]], [['collect']]]),
@@ -1223,15 +1333,18 @@ SYSTEMATIC = [
     ([4], [[['obs_h', 1]], [['obs_h', 2]], [['collect']]]),
     ([2], [[['ginc', 3]], [['ginc', -1]], [['gset', 7]]]),
     ([7, 1], [[['collect']], [['register', 6], ['unregister', 6]]]),
+    ([1, 10], [[['collect']], [['register', 6]]]),
+    ([9, 5], [[['linc2', 1, 1], ['linc', 0, 2]], [['linc', 1, 3], ['linc2', 0, 1]], [['collect']]]),
     ([5], [[['labels', 0], ['linc', 0, 1]], [['labels', 0]], [['linc', 0, 2]]]),
 ]
 
 
 def random_program(rng):
     n = rng.choice((2, 2, 3))
-    pre = [c for c in (1, 2, 3, 4, 5) if rng.random() < 0.5]
+    pre = [c for c in (1, 2, 3, 4, 5, 9) if rng.random() < 0.5]
     if rng.random() < 0.4:
         pre.append(7)
+    lazy = rng.choice((None, None, 10, 12, 10))      # a collector that registers / unregisters from inside collect()
     u0_owner = rng.randrange(n) if rng.random() < 0.5 else None
     u0_reg = rng.random() < 0.5
     if u0_reg and u0_owner is not None:
@@ -1247,8 +1360,10 @@ def random_program(rng):
             a = rng.randrange(1, 6)
             if r < 0.2:
                 prog.append(['inc', a])
-            elif r < 0.4:
+            elif r < 0.3:
                 prog.append(['linc', rng.randrange(2), a])
+            elif r < 0.4:
+                prog.append(['linc2', rng.randrange(2), a])
             elif r < 0.47:
                 prog.append(['labels', rng.randrange(2)])
             elif r < 0.6:
@@ -1270,6 +1385,10 @@ def random_program(rng):
             else:
                 prog.append(['inc', a])
         threads.append(prog)
+    # the lazily registering / self-unregistering collectors act once: at most one collect in the program
+    if lazy is not None and sum(1 for p in threads for o in p if o[0] == 'collect') == 1:
+        pre.insert(rng.randrange(len(pre) + 1), lazy)
+        return pre, threads, mem_only
     return sorted(set(pre)), threads, mem_only
 
 
